@@ -162,6 +162,14 @@ def evaluate(rows, model_ok, want):
     sem_ans = C.drive("modeldrv", sem_reqs) if model_ok and sem_reqs else [None] * len(sem_reqs)
     spec_ans = C.drive("specdrv", spec_reqs) if spec_reqs else []
     ctx_reqs, ctx_exp = [], []
+    # C15: the Spec's number of validated fields (one cancellation point each), independent of the implementation
+    poll_rows = [r for r in rows if r.get("file")]
+    spec_polls = {}
+    if "ctx" in want and poll_rows:
+        for r, a in zip(poll_rows, C.drive("specdrv", ["polls\t" + r["decl_sexp"] for r in poll_rows])):
+            spec_polls[(r["scenario"], r["decl"])] = int(a)
+            if int(a) != r.get("polls", 0):
+                out["ctx"].append((r, "-", "polls", "implementation polls %d times" % r.get("polls", 0), "-", "one cancellation point per validated field: %s" % a, a))
     for (ri, vi), sa, pa in zip(idx, sem_ans, spec_ans):
         r = rows[ri]
         o = r["obs"][vi]
@@ -201,7 +209,7 @@ def evaluate(rows, model_ok, want):
                     out["wrappers"].append((r, v, o, k, ex[k]))
                 if ex.get(k) == "panic":
                     out["panic"].append((r, v, k))
-        P = r.get("polls", 0)
+        P = spec_polls.get((r["scenario"], r["decl"]), r.get("polls", 0))
         for k, val in ex.items():
             if k.startswith("ctx") and k[3:-1].isdigit():
                 K = int(k[3:-1])
